@@ -12,13 +12,16 @@ from ..engine import Finding, with_timeout, Timeout
 
 ID = 'C10'
 TITLE = 'drange enumerates exactly t0, t0+bump, ... up to t1 for every kind of bump'
-LEAN_FILES = ['Basic', 'Civil', 'DRange', 'DRangeDriver', 'DRangeLemmas', 'C10']
+LEAN_FILES = ['Basic', 'Civil', 'DRange', 'DRangeDriver', 'DRangeLemmas', 'CivilLemmas', 'CivilGreg', 'DRangeMonth', 'DRangeBump', 'C10',
+              # the step is tied to the C09 model of dt_bump and the Gregorian model of C04/C09:
+              'Greg', 'GenTypes', 'Bump', 'PygGen', 'Sweep', 'GregLemmas', 'GregPeriod', 'BumpLemmas', 'MonthLemmas', 'TokenLemmas', 'C09']
+GENERATED = ['PygGen.Ym', 'PygGen.BDay', 'PygGen.Tables']
 RULE = ('distinct (t0, t1, bump) requests on which drange returned a list of at least two instants or raised ValueError '
         'for a bump pointing away from t1; dt_bump self-test lines are not counted')
 TRUSTED = ['correspondence harness (pv.engine, pv.proto) and generators of pv.props.c10',
            'Lean driver parser/printer and period tokenizer (PygModel/Basic.lean, DRangeDriver.lean, DRange.parsePeriod)']
 ASSUMPTIONS = ['dateutil.rrule(freq, interval=k>0, dtstart, until) enumerates dtstart + i*k units while <= until (month-based units: day of month <= 28, time of day kept)',
-               'datetime arithmetic agrees with integer microsecond arithmetic and with the closed-form Gregorian arithmetic of PygModel/Civil.lean (sampled through the bump op)',
+               'datetime arithmetic agrees with integer microsecond arithmetic; CPython datetime ordinal/field arithmetic behaves as PygModel/Greg.lean (PygModel/Civil.lean is PROVED equal to Greg; still sampled through the bump op)',
                'endpoints are whole seconds wherever rrule is involved (rrule drops microseconds); zero bumps and days of month > 28 with month-based units are outside the statement']
 
 D = datetime.datetime
